@@ -85,6 +85,9 @@ func (Engine) Execute(planJSON json.RawMessage, scratch string) (res sim.RunResu
 	if p.ConvFail {
 		os.WriteFile(filepath.Join(vdir, "failmode"), nil, 0o644)
 	}
+	if p.ConvGarble {
+		os.WriteFile(filepath.Join(vdir, "garblemode"), nil, 0o644)
+	}
 	for _, c := range p.Converters {
 		if VconvPath == "" {
 			res.Infra = "no converter executable configured"
@@ -203,6 +206,9 @@ func (Engine) Execute(planJSON json.RawMessage, scratch string) (res sim.RunResu
 		for _, e := range ents {
 			if strings.HasPrefix(e.Name(), "fail-") {
 				res.Count("fault_converter_transient_failure", 1)
+			}
+			if strings.HasPrefix(e.Name(), "garble-") {
+				res.Count("fault_converter_protocol_violation", 1)
 			}
 		}
 	}
@@ -374,6 +380,11 @@ func (Engine) Shrink(planJSON json.RawMessage, last *sim.RunResult) []json.RawMe
 	if p.ConvFail {
 		q := clone()
 		q.ConvFail = false
+		emit(q)
+	}
+	if p.ConvGarble {
+		q := clone()
+		q.ConvGarble = false
 		emit(q)
 	}
 	if len(p.Restarts) > 0 {
